@@ -75,4 +75,17 @@ SPECS = {
                          "not modelled (searched only): tiny-skia draw_pixmap 8-bit arithmetic and rasteriser; the two dependency defects at negative offsets are known findings"],
         "assumptions": COMMON_ASSUME + ["edge pixels of anti-aliased geometry may differ by up to a quarter of full coverage between direct and offscreen rasterisation (tiny-skia sub-sampling); flat areas must agree within the stated tolerance"],
     },
+    "C09": {
+        "level": "proof",
+        "corr": True,
+        "search": True,
+        "translator_anchors": ["svgtree/names.rs: EId/AId name tables", "svgtree/mod.rs: is_presentation / is_non_inheritable / allows_inherit_value / is_inheritable shape / is_graphic",
+                               "svgtree/parse.rs: resolve_inherit fallback table, style-only attribute list, image-rendering skip list, depth and node limits"],
+        "claim": "Lean 4 theorems about a branch-by-branch model of parse_svg_element's attribute handling: the insert_attribute closure (index before append, swap unless important, pop) equals replace-first-unless-important-else-append; lookup after any declaration list equals the fold of the winner rule over exactly that property's declarations (core theorem, by induction), with closed forms (an !important value sticks, otherwise the last wins); corollaries attribute = style/CSS declaration, order irrelevance for any reordering that preserves per-property order; explicit inherit equals ancestor lookup (inheritable) / parent value (non-inheritable); every property of the statement accepts inherit (after fix 3eaa813); unit equivalences at the DPI. The model is regenerated (classification tables) by the translator and tied by replaying cascade traces (every element of generated documents and corpus files: ancestors, XML attributes, raw and expanded declarations, resulting attribute slice) and the classification truth tables.",
+        "design_ref": "§6 C09",
+        "rule": "correspondence: attrclass/elemclass for every name the translator lists plus junk names (exhaustive over the tables); casc: one request per element of PRNG documents mixing attributes/style/CSS selectors/!important/inherit/shorthands/injected stylesheet and of corpus files; expand: every raw declaration except the font shorthand. search: base document vs 10 kinds of spelling rewrites at DPI 72/96/300, written trees compared after number canonicalisation.",
+        "trusted_base": ["modelled: parse.rs parse_svg_element (attribute copy, insert_attribute, write_declaration except the font shorthand), append_attribute, resolve_inherit; mod.rs find_attribute and the attribute classes; units.rs convert_length",
+                         "not modelled (searched only): simplecss selector matching and rule order, svgtypes value grammars (colours, numbers, font shorthand), converter defaults"],
+        "assumptions": COMMON_ASSUME,
+    },
 }
